@@ -43,9 +43,10 @@ def space(tier, seed):
     jtargets = [F('a', 1), F('a', 2)]
     jrhs = [F('b', 2), F('a', 1), ('lit', 'Z'), ('NU',), ('bNR',)]
     for al in lists(jtargets, jrhs, 2):
-        for w in (None, ('cmp', '==', F('b', 2), ('lit', 'p')), ('like', F('b', 2), 'p%'), ('cmp', '>', ('len', F('b', 2)), ('int', 0))):
+        for w in (None, ('cmp', '==', F('b', 2), ('lit', 'p')), ('like', F('b', 2), 'p%'), ('cmp', '>', ('len', F('b', 2)), ('int', 0)),
+                  ('or', ('cmp', '==', F('a', 1), ('lit', k)), ('cmp', '==', F('a', 1), ('lit', m)))):
             for jt in ('INNER JOIN', 'LEFT JOIN'):
-                if jt == 'LEFT JOIN' and w is not None and w[0] != 'cmp':
+                if jt == 'LEFT JOIN' and w is not None and w[0] not in ('cmp', 'or'):
                     continue      # a b-field of an unmatched LEFT JOIN row is None: dereferencing it fails by design
                 qs.append(('join', {'kind': 'update', 'assign': al, 'where': w, 'join': {'type': jt, 'keys': [(F('a', 1), F('b', 1))]}}))
     nrows = [[k, m], [m, k], [k, None]]
